@@ -134,12 +134,56 @@ def correspondence(ctx, violations, known_hits):
                                    "destination_before": before.hex() if isinstance(before, bytes) else before,
                                    "destination_after": after.hex() if isinstance(after, bytes) else after,
                                    "model_exit": mo[0], "model_bytes": exp_bytes.hex() if exp_bytes else None})
+    # the reader of `compile`'s STANDARD OUTPUT goes away after the first progress line (`lace compile ... | head -n 1`): whatever
+    # that does to the messages, the either/or of the property still has to hold.  The source is a FIFO, so that lace prints
+    # its first line, blocks, and gets the program text only after the pipe has lost its reader.
+    import subprocess, threading
+    pipe_cases = [("ok", "lea r0 s\nputs\nhalt\ns .stringz \"hi\"\n"), ("ok", "halt\n"), ("emit-error", "br far\n.blkw x900\nfar halt\n"), ("parse-error", "add r0\n")]
+    for tag, text in pipe_cases:
+        mo = [int(x, 16) for x in ctx.run_model([C06.obj_case(0, text)], tag="objpipe")[0][0].split()]
+        exp_bytes = bytes(mo[2:2 + mo[1]]) if mo[0] == 0 else None
+        for dk in ("absent", "existing"):
+            sub = os.path.join(d, f"pipe-{tag}-{dk}-{len(text)}"); os.makedirs(sub, exist_ok=True)
+            fifo = os.path.join(sub, "p.asm"); os.mkfifo(fifo)
+            dest = os.path.join(sub, "out.lc3")
+            if dk == "existing":
+                open(dest, "wb").write(OLD)
+            r, w = os.pipe()
+            p = subprocess.Popen([exe, "compile", "p.asm", "out.lc3"], cwd=sub, stdout=w, stderr=subprocess.DEVNULL, stdin=subprocess.DEVNULL,
+                                 env=dict(os.environ, NO_COLOR="1", RUST_BACKTRACE="0"))
+            os.close(w)
+            first = b""
+            while not first.endswith(b"\n"):
+                ch = os.read(r, 1)
+                if not ch:
+                    break
+                first += ch
+            os.close(r)                                   # from here on stdout is a pipe without a reader
+            def feed():
+                with open(fifo, "w") as f:
+                    f.write(text)
+            t = threading.Thread(target=feed, daemon=True); t.start()
+            try:
+                rc = p.wait(timeout=20)
+            except subprocess.TimeoutExpired:
+                p.kill(); rc = -9
+            t.join(timeout=2)
+            after = open(dest, "rb").read() if os.path.exists(dest) else None
+            before = OLD if dk == "existing" else None
+            ev += 1
+            good = (rc == 0 and exp_bytes is not None and after == exp_bytes) or (rc != 0 and after == before)
+            sigs.add(("stdout-closes", tag, dk, rc == 0))
+            if not good:
+                nv += 1
+                violations.append({"kind": "not-all-or-nothing", "class": tag, "destination": dk, "fault": "the reader of compile's stdout went away after the first line",
+                                   "source": text, "exit": rc, "destination_before": before.hex() if before else None,
+                                   "destination_after": after.hex() if after is not None else None, "model_exit": mo[0]})
     ctx.cleanup()
     return {
         "evaluations": ev, "distinct_nontrivial": len(sigs),
         "rule": "fault enumeration at the CLI: an out-of-range label reference injected at EVERY statement position 0..n of programs "
                 "with n up to 40 (several PC-relative instructions), plus parse/lex/label errors and valid programs, x destination "
-                "absent / pre-existing with unrelated contents, empty, a proper prefix of the new object file, the new object file followed by stale words / a link to /dev/full / missing directory / a directory in place of the file / a dangling link / a file name that is not valid UTF-8 (absent, pre-existing); sources without any statement (empty, comments, `.orig` alone, `.end` first); the scratch directory must hold nothing new; "
+                "absent / pre-existing with unrelated contents, empty, a proper prefix of the new object file, the new object file followed by stale words / a link to /dev/full / missing directory / a directory in place of the file / a dangling link / a file name that is not valid UTF-8 (absent, pre-existing); sources without any statement (empty, comments, `.orig` alone, `.end` first); the reader of compile's standard output going away after the first progress line; the scratch directory must hold nothing new; "
                 "observed: exit status and the bytes at the destination before and after; distinct = distinct (class, destination, exit==0)",
         "exhaustive": True, "exhaustive_over": "failing statement position 0..n for each listed n",
         "histogram": hist, "samples": samples, "mismatches": nv,
